@@ -5,7 +5,9 @@
        section::= column* | group+ ;   a section holds columns only or groups only
        group  ::= column*
        column ::= leaf* ;   with or without padding (gutter table)
-       leaf   ::= text | divider | spacer | image | image-with-link | button | button-with-link | raw
+       leaf   ::= text | divider | spacer | image | image-with-link | button | button-with-link | raw | table
+                | social (horizontal / vertical) of elements | navbar (plain / hamburger) of links
+                | accordion of elements (title?, text?)
        mj-raw ::= balanced author HTML; also allowed between the blocks of the body, between the sections of a
                   wrapper and among the columns of a section or group
 
@@ -24,7 +26,11 @@ Local Notation length := List.length.
 
 (* leaves that carry author content carry it as a parameter; divider and spacer write generated text *)
 Inductive leaf := KText (s : bytes) | KDivider | KSpacer | KImage | KImageLink | KButton (s : bytes) | KButtonLink (s : bytes)
-                | KRaw (ts : list tok).                 (* mj-raw: the author's own markup *)
+                | KRaw (ts : list tok)                  (* mj-raw: the author's own markup *)
+                | KTable (ts : list tok)                (* mj-table: author's rows inside the component's table *)
+                | KSocial (vertical : bool) (els : list (option bytes))       (* elements without link: their labels *)
+                | KNavbar (hamburger : bool) (links : list bytes)
+                | KAccordion (els : list (option bytes * option bytes)).      (* title, text *)
 Definition column := (bool * list leaf)%type.          (* true = the column has padding: its rows sit in a gutter table *)
 Inductive item := CI (cl : column) | RI (ts : list tok).   (* what a section or group holds: columns and mj-raw *)
 Inductive section := Cols (l : list item) | Groups (gs : list (list item)).
@@ -33,8 +39,9 @@ Inductive witem := WS (s : sect) | WR (ts : list tok).     (* what a wrapper hol
 Inductive block := Plain (s : sect) | FullWidth (s : sect) | Wrap (ws : list witem) | Hero (ks : list leaf) | Raw (ts : list tok).
 Definition body := list block.
 
-(* a segment of output: plain markup, or the inside of one <!--[if mso | IE]> ... <![endif]--> *)
-Inductive seg := P (ts : list tok) | M (ts : list tok).
+(* a segment of output: plain markup, the inside of one <!--[if mso | IE]> ... <![endif]--> (Outlook only),
+   or the inside of one <!--[if !mso | IE]><!--> ... <!--<![endif]--> (everyone but Outlook) *)
+Inductive seg := P (ts : list tok) | M (ts : list tok) | N (ts : list tok).
 
 Definition o (n : string) : tok := TOpen (lit n) [] false.
 Definition c (n : string) : tok := TClose (lit n).
@@ -51,6 +58,18 @@ Definition raw_okb (ts : list tok) : bool := forallb plain ts && balanced (flat_
 Definition raw_toks (ts : list tok) : list tok := if raw_okb ts then ts else [].
 Definition raw_seg (ts : list tok) : seg := P (raw_toks ts).
 
+(* pieces of the composite leaves *)
+Definition icon : list tok := [o "table"; o "tbody"; o "tr"; o "td"; o "img"; c "td"; c "tr"; c "tbody"; c "table"].
+Definition label (e : option bytes) : list tok := match e with Some s => [o "td"; o "span"; tx s; c "span"; c "td"] | None => [] end.
+Definition sel_h (e : option bytes) : seg := P ([o "table"; o "tbody"; o "tr"; o "td"] ++ icon ++ [c "td"] ++ label e ++ [c "tr"; c "tbody"; c "table"]).
+Definition sel_v (e : option bytes) : seg := P ([o "tr"; o "td"] ++ icon ++ [c "td"] ++ label e ++ [c "tr"]).
+Definition nav_link (s : bytes) : list seg := [M [o "td"]; P [o "a"; tx s; c "a"]; M [c "td"]].
+Definition acc_el (e : option bytes * option bytes) : list seg :=
+  P [o "tr"; o "td"; o "label"] :: N [o "input"] :: P [o "div"] ::
+  (match fst e with Some s => [P [o "div"; o "table"; o "tbody"; o "tr"; o "td"; tx s; c "td"]; N [o "td"; o "img"; o "img"; c "td"]; P [c "tr"; c "tbody"; c "table"; c "div"]] | None => [] end) ++
+  (match snd e with Some s => [P [o "div"; o "table"; o "tbody"; o "tr"; o "td"; tx s; c "td"; c "tr"; c "tbody"; c "table"; c "div"]] | None => [] end) ++
+  [P [c "div"; c "label"; c "td"; c "tr"]].
+
 Definition leaf_segs (k : leaf) : list seg :=
   match k with
   | KText s => [P [o "div"; tx s; c "div"]]
@@ -61,6 +80,14 @@ Definition leaf_segs (k : leaf) : list seg :=
   | KButton s => [P [o "table"; o "tbody"; o "tr"; o "td"; o "p"; tx s; c "p"; c "td"; c "tr"; c "tbody"; c "table"]]
   | KButtonLink s => [P [o "table"; o "tbody"; o "tr"; o "td"; o "a"; tx s; c "a"; c "td"; c "tr"; c "tbody"; c "table"]]
   | KRaw ts => [raw_seg ts]
+  | KTable ts => [P [o "table"]; raw_seg ts; P [c "table"]]
+  | KSocial false [] => [M [o "table"; o "tr"]; M [c "tr"; c "table"]]
+  | KSocial false (e1 :: r) => M [o "table"; o "tr"; o "td"] :: sel_h e1 :: flat_map (fun e => [M [c "td"; o "td"]; sel_h e]) r ++ [M [c "td"; c "tr"; c "table"]]
+  | KSocial true els => P [o "table"; o "tbody"] :: map sel_v els ++ [P [c "tbody"; c "table"]]
+  | KNavbar ham links =>
+      (if ham then [N [o "input"]; P [o "div"; o "label"; o "span"; txt; c "span"; o "span"; txt; c "span"; c "label"; c "div"]] else []) ++
+      P [o "div"] :: M [o "table"; o "tr"] :: flat_map nav_link links ++ [M [c "tr"; c "table"]; P [c "div"]]
+  | KAccordion els => P [o "table"; o "tbody"] :: flat_map acc_el els ++ [P [c "tbody"; c "table"]]
   end.
 
 (* every component sits in its own row of the column's table; mj-raw is written as it is *)
@@ -164,18 +191,25 @@ Fixpoint blocks_segs (pend : bool) (bs : list block) : list seg :=
   end.
 Definition body_segs (b : body) : list seg := P [o "div"] :: blocks_segs false b ++ [P [c "div"]].
 
+Definition ncond : bytes := lit "!mso | IE".
 Definition seg_toks (s : seg) : list tok :=
-  match s with P ts => ts | M ts => TMsoOpen cond :: ts ++ [TMsoEnd] end.
+  match s with
+  | P ts => ts
+  | M ts => TMsoOpen cond :: ts ++ [TMsoEnd]
+  | N ts => TNotMsoOpen ncond :: ts ++ [TNotMsoEnd]
+  end.
 Definition flat (l : list seg) : list tok := flat_map seg_toks l.
 Definition emit_body (b : body) : list tok := flat (body_segs b).
 
 (* ---- from tokens to events -------------------------------------------------------------- *)
-Definition seg_plain (s : seg) : bool := match s with P ts | M ts => forallb plain ts end.
+Definition seg_plain (s : seg) : bool := match s with P ts | M ts | N ts => forallb plain ts end.
 Definition seg_events (v : view_kind) (s : seg) : list ev :=
   match s, v with
   | P ts, _ => flat_map tok_events ts
   | M ts, Mso => flat_map tok_events ts
   | M _, Std => []
+  | N ts, Std => flat_map tok_events ts
+  | N _, Mso => []
   end.
 Definition events (v : view_kind) (l : list seg) : list ev := flat_map (seg_events v) l.
 
@@ -193,11 +227,20 @@ Proof.
   - apply andb_true_iff in H. destruct H as [Ht Hr].
     destruct t; try discriminate; cbn [view vstep]; rewrite (IH Hr); destruct v; reflexivity.
 Qed.
+Lemma view_plain_innotmso v : forall ts, forallb plain ts = true ->
+  view v InNotMso (ts ++ [TNotMsoEnd]) = Some (match v with Std => flat_map tok_events ts | Mso => [] end, Closed).
+Proof.
+  induction ts as [|t r IH]; cbn [forallb app flat_map]; intros H.
+  - cbn. destruct v; reflexivity.
+  - apply andb_true_iff in H. destruct H as [Ht Hr].
+    destruct t; try discriminate; cbn [view vstep]; rewrite (IH Hr); destruct v; reflexivity.
+Qed.
 Lemma view_seg v s : seg_plain s = true -> view v Closed (seg_toks s) = Some (seg_events v s, Closed).
 Proof.
-  destruct s as [ts|ts]; cbn [seg_plain seg_toks]; intros H.
+  destruct s as [ts|ts|ts]; cbn [seg_plain seg_toks]; intros H.
   - rewrite (view_plain_closed v ts H). destruct v; reflexivity.
   - cbn [view vstep]. rewrite (view_plain_inmso v ts H). destruct v; reflexivity.
+  - cbn [view vstep]. rewrite (view_plain_innotmso v ts H). destruct v; reflexivity.
 Qed.
 Theorem view_flat v : forall l, forallb seg_plain l = true -> view v Closed (flat l) = Some (events v l, Closed).
 Proof.
@@ -217,8 +260,27 @@ Proof. intros H. induction l as [|x r IH]; cbn; [reflexivity|]. rewrite forallb_
 Lemma raw_plain ts : forallb plain (raw_toks ts) = true.
 Proof. unfold raw_toks, raw_okb. destruct (forallb plain ts) eqn:E; cbn [andb]; [destruct (balanced _); [exact E|reflexivity]|reflexivity]. Qed.
 Lemma raw_seg_plain ts : seg_plain (raw_seg ts) = true. Proof. apply raw_plain. Qed.
+Lemma label_plain e : forallb plain (label e) = true. Proof. destruct e; reflexivity. Qed.
+Lemma sel_h_plain e : seg_plain (sel_h e) = true.
+Proof. unfold sel_h. cbn [seg_plain]. rewrite !forallb_app, label_plain. reflexivity. Qed.
+Lemma sel_v_plain e : seg_plain (sel_v e) = true.
+Proof. unfold sel_v. cbn [seg_plain]. rewrite !forallb_app, label_plain. reflexivity. Qed.
+Lemma acc_el_plain e : forallb seg_plain (acc_el e) = true.
+Proof. destruct e as [[t|] [x|]]; reflexivity. Qed.
+Lemma forallb_map {A B} (f : A -> B) (p : B -> bool) l : (forall x, p (f x) = true) -> forallb p (map f l) = true.
+Proof. intros H. induction l as [|x r IH]; cbn; [reflexivity|]. now rewrite H, IH. Qed.
 Lemma leaf_plain k : forallb seg_plain (leaf_segs k) = true.
-Proof. destruct k; try reflexivity. cbn [leaf_segs forallb]. now rewrite raw_seg_plain. Qed.
+Proof.
+  destruct k as [s| | | | |s|s|ts|ts|vert els|ham links|els]; try reflexivity.
+  - cbn [leaf_segs forallb]. now rewrite raw_seg_plain.
+  - cbn [leaf_segs forallb]. now rewrite raw_seg_plain.
+  - destruct vert.
+    + cbn [leaf_segs forallb]. rewrite forallb_app, (forallb_map sel_v seg_plain els sel_v_plain). reflexivity.
+    + destruct els as [|e1 r]; [reflexivity|]. cbn [leaf_segs forallb]. rewrite sel_h_plain, forallb_app.
+      rewrite forallb_flat_map; [reflexivity|]. intros e. cbn [forallb]. now rewrite sel_h_plain.
+  - cbn [leaf_segs]. rewrite forallb_app. destruct ham; cbn [forallb]; rewrite forallb_app, forallb_flat_map; try reflexivity; intros x; reflexivity.
+  - cbn [leaf_segs forallb]. rewrite forallb_app, (forallb_flat_map acc_el seg_plain els acc_el_plain). reflexivity.
+Qed.
 Lemma row_plain k : forallb seg_plain (row_segs k) = true.
 Proof.
   destruct k; try (unfold row_segs; cbn [forallb]; rewrite forallb_app, leaf_plain; reflexivity).
@@ -306,9 +368,109 @@ Proof.
   unfold raw_toks, raw_okb. destruct (forallb plain ts); cbn [andb]; [|apply wb_nil].
   destruct (balanced (flat_map tok_events ts)) eqn:B; [now apply balanced_wb|apply wb_nil].
 Qed.
+Lemma raw_seg_std ts : seg_events Std (raw_seg ts) = seg_events Mso (raw_seg ts). Proof. reflexivity. Qed.
+Lemma raw_run v ts st r : run st (seg_events v (raw_seg ts) ++ r) = run st r.
+Proof.
+  pose proof (raw_wb v ts) as H. unfold events in H. cbn [flat_map] in H. rewrite app_nil_r in H.
+  rewrite run_app, H. reflexivity.
+Qed.
+Lemma events1 v sg : events v [sg] = seg_events v sg.
+Proof. unfold events. cbn [flat_map]. apply app_nil_r. Qed.
+Ltac runs := repeat (first [rewrite run_eo | rewrite run_ec | rewrite run_te | progress (cbn [app])]).
+Lemma sel_h_some v s : seg_events v (sel_h (Some s)) =
+  eo "table" :: eo "tbody" :: eo "tr" :: eo "td" :: eo "table" :: eo "tbody" :: eo "tr" :: eo "td" :: ec "td" :: ec "tr" :: ec "tbody" :: ec "table" :: ec "td" ::
+  eo "td" :: eo "span" :: te s ++ [ec "span"; ec "td"; ec "tr"; ec "tbody"; ec "table"].
+Proof. destruct v; reflexivity. Qed.
+Lemma sel_h_wb v e : wb (seg_events v (sel_h e)).
+Proof. destruct e as [s|]; [rewrite sel_h_some; intros st; now runs|apply balanced_wb; destruct v; vm_compute; reflexivity]. Qed.
+Lemma sel_v_some v s : seg_events v (sel_v (Some s)) =
+  eo "tr" :: eo "td" :: eo "table" :: eo "tbody" :: eo "tr" :: eo "td" :: ec "td" :: ec "tr" :: ec "tbody" :: ec "table" :: ec "td" ::
+  eo "td" :: eo "span" :: te s ++ [ec "span"; ec "td"; ec "tr"].
+Proof. destruct v; reflexivity. Qed.
+Lemma sel_v_wb v e : wb (seg_events v (sel_v e)).
+Proof. destruct e as [s|]; [rewrite sel_v_some; intros st; now runs|apply balanced_wb; destruct v; vm_compute; reflexivity]. Qed.
+Lemma events_flat_map {A} v (f : A -> list seg) l : events v (flat_map f l) = flat_map (fun x => events v (f x)) l.
+Proof. induction l as [|x r IH]; cbn [flat_map]; [reflexivity|]. now rewrite events_app, IH. Qed.
+Lemma events_map {A} v (f : A -> seg) l : events v (map f l) = flat_map (fun x => seg_events v (f x)) l.
+Proof. induction l as [|x r IH]; cbn [map flat_map]; [reflexivity|]. now rewrite events_cons, IH. Qed.
+Lemma social_h_more_std r : wb (events Std (flat_map (fun e => [M [c "td"; o "td"]; sel_h e]) r)).
+Proof. rewrite events_flat_map. apply wb_concat_map. intros e. rewrite !events_cons. cbn [events flat_map app]. rewrite app_nil_r. change (seg_events Std (M [c "td"; o "td"])) with (@nil ev). apply sel_h_wb. Qed.
+Lemma social_h_more_mso : forall r st, run (lit "td" :: st) (events Mso (flat_map (fun e => [M [c "td"; o "td"]; sel_h e]) r)) = Some (lit "td" :: st).
+Proof.
+  induction r as [|e r IH]; intros st; [reflexivity|]. cbn [flat_map]. rewrite events_app, !events_cons.
+  change (seg_events Mso (M [c "td"; o "td"])) with [ec "td"; eo "td"]. change (events Mso []) with (@nil ev). rewrite app_nil_r, <- !app_assoc.
+  cbn [app]. rewrite run_ec, run_eo, run_app, (sel_h_wb Mso e). apply IH.
+Qed.
+Lemma nav_link_wb v s : wb (events v (nav_link s)).
+Proof.
+  unfold nav_link. rewrite !events_cons. change (events v []) with (@nil ev). rewrite app_nil_r.
+  replace (seg_events v (P [o "a"; tx s; c "a"])) with (eo "a" :: te s ++ [ec "a"]) by (destruct v; reflexivity).
+  destruct v.
+  - change (seg_events Std (M [o "td"])) with (@nil ev). change (seg_events Std (M [c "td"])) with (@nil ev). rewrite app_nil_r. intros st. now runs.
+  - change (seg_events Mso (M [o "td"])) with [eo "td"]. change (seg_events Mso (M [c "td"])) with [ec "td"]. intros st. runs. rewrite <- app_assoc. now runs.
+Qed.
+Lemma acc_el_wb v e : wb (events v (acc_el e)).
+Proof.
+  destruct e as [t x]. unfold acc_el. cbn [fst snd].
+  assert (T : wb (events v (match t with Some s => [P [o "div"; o "table"; o "tbody"; o "tr"; o "td"; tx s; c "td"]; N [o "td"; o "img"; o "img"; c "td"]; P [c "tr"; c "tbody"; c "table"; c "div"]] | None => [] end))).
+  { destruct t as [s|]; [|apply wb_nil]. rewrite !events_cons. change (events v []) with (@nil ev). rewrite app_nil_r.
+    replace (seg_events v (P [o "div"; o "table"; o "tbody"; o "tr"; o "td"; tx s; c "td"])) with (eo "div" :: eo "table" :: eo "tbody" :: eo "tr" :: eo "td" :: te s ++ [ec "td"]) by (destruct v; reflexivity).
+    replace (seg_events v (P [c "tr"; c "tbody"; c "table"; c "div"])) with [ec "tr"; ec "tbody"; ec "table"; ec "div"] by (destruct v; reflexivity).
+    destruct v.
+    - change (seg_events Std (N [o "td"; o "img"; o "img"; c "td"])) with [eo "td"; ec "td"]. intros st. runs. rewrite <- app_assoc. now runs.
+    - change (seg_events Mso (N [o "td"; o "img"; o "img"; c "td"])) with (@nil ev). intros st. runs. rewrite <- app_assoc. now runs. }
+  assert (X : wb (events v (match x with Some s => [P [o "div"; o "table"; o "tbody"; o "tr"; o "td"; tx s; c "td"; c "tr"; c "tbody"; c "table"; c "div"]] | None => [] end))).
+  { destruct x as [s|]; [|apply wb_nil]. rewrite events1.
+    replace (seg_events v (P [o "div"; o "table"; o "tbody"; o "tr"; o "td"; tx s; c "td"; c "tr"; c "tbody"; c "table"; c "div"]))
+      with (eo "div" :: eo "table" :: eo "tbody" :: eo "tr" :: eo "td" :: te s ++ [ec "td"; ec "tr"; ec "tbody"; ec "table"; ec "div"]) by (destruct v; reflexivity).
+    intros st. now runs. }
+  rewrite !events_cons, !events_app.
+  replace (seg_events v (P [o "tr"; o "td"; o "label"])) with [eo "tr"; eo "td"; eo "label"] by (destruct v; reflexivity).
+  replace (seg_events v (N [o "input"])) with (@nil ev) by (destruct v; reflexivity).
+  replace (seg_events v (P [o "div"])) with [eo "div"] by (destruct v; reflexivity).
+  replace (events v [P [c "div"; c "label"; c "td"; c "tr"]]) with [ec "div"; ec "label"; ec "td"; ec "tr"] by (destruct v; reflexivity).
+  intros st. runs. rewrite run_app, T, run_app, X. now runs.
+Qed.
+
+Lemma wrap2 a b es : wb es -> wb (eo a :: eo b :: es ++ [ec b; ec a]).
+Proof.
+  intros H. change (eo a :: eo b :: es ++ [ec b; ec a]) with (eo a :: (eo b :: es ++ [ec b; ec a])).
+  replace (eo b :: es ++ [ec b; ec a]) with ((eo b :: es ++ [ec b]) ++ [ec a]) by (cbn; now rewrite <- app_assoc).
+  apply wb_wrap. apply wb_wrap. exact H.
+Qed.
 Lemma leaf_wb v k : wb (events v (leaf_segs k)).
 Proof.
-  destruct k as [s| | | | |s|s|ts]; try (apply balanced_wb; destruct v; vm_compute; reflexivity); [| | |apply raw_wb].
+  destruct k as [s| | | | |s|s|ts|ts|vert els|ham links|els]; try (apply balanced_wb; destruct v; vm_compute; reflexivity); [| | |apply raw_wb| | | |].
+  4: { (* table *) cbn [leaf_segs]. rewrite !events_cons. change (events v []) with (@nil ev). rewrite app_nil_r.
+       replace (seg_events v (P [o "table"])) with [eo "table"] by (destruct v; reflexivity).
+       replace (seg_events v (P [c "table"])) with [ec "table"] by (destruct v; reflexivity).
+       intros st. runs. rewrite raw_run. now runs. }
+  4: { (* social *) destruct vert.
+       - cbn [leaf_segs]. rewrite events_cons, events_app, events_map.
+         replace (seg_events v (P [o "table"; o "tbody"])) with [eo "table"; eo "tbody"] by (destruct v; reflexivity).
+         replace (events v [P [c "tbody"; c "table"]]) with [ec "tbody"; ec "table"] by (destruct v; reflexivity).
+         cbn [app]. apply wrap2. apply wb_concat_map. intros e. apply sel_v_wb.
+       - destruct els as [|e1 r]; [apply balanced_wb; destruct v; vm_compute; reflexivity|].
+         cbn [leaf_segs]. rewrite !events_cons, events_app. destruct v.
+         + change (seg_events Std (M [o "table"; o "tr"; o "td"])) with (@nil ev). change (events Std [M [c "td"; c "tr"; c "table"]]) with (@nil ev).
+           cbn [app]. rewrite app_nil_r. apply wb_app; [apply sel_h_wb|apply social_h_more_std].
+         + change (seg_events Mso (M [o "table"; o "tr"; o "td"])) with [eo "table"; eo "tr"; eo "td"]. change (events Mso [M [c "td"; c "tr"; c "table"]]) with [ec "td"; ec "tr"; ec "table"].
+           intros st. runs. rewrite run_app, (sel_h_wb Mso e1), run_app, social_h_more_mso. now runs. }
+  4: { (* navbar *) cbn [leaf_segs]. rewrite events_app.
+       assert (H : wb (events v (if ham then [N [o "input"]; P [o "div"; o "label"; o "span"; txt; c "span"; o "span"; txt; c "span"; c "label"; c "div"]] else [])))
+         by (destruct ham; apply balanced_wb; destruct v; vm_compute; reflexivity).
+       apply wb_app; [exact H|]. rewrite !events_cons, events_app, events_flat_map.
+       replace (seg_events v (P [o "div"])) with [eo "div"] by (destruct v; reflexivity).
+       assert (L : wb (flat_map (fun x => events v (nav_link x)) links)) by (apply wb_concat_map; intros x; apply nav_link_wb).
+       destruct v.
+       - change (seg_events Std (M [o "table"; o "tr"])) with (@nil ev). change (events Std [M [c "tr"; c "table"]; P [c "div"]]) with [ec "div"].
+         cbn [app]. apply (wb_wrap (lit "div")). exact L.
+       - change (seg_events Mso (M [o "table"; o "tr"])) with [eo "table"; eo "tr"]. change (events Mso [M [c "tr"; c "table"]; P [c "div"]]) with [ec "tr"; ec "table"; ec "div"].
+         intros st. runs. rewrite run_app, L. now runs. }
+  4: { (* accordion *) cbn [leaf_segs]. rewrite events_cons, events_app, events_flat_map.
+       replace (seg_events v (P [o "table"; o "tbody"])) with [eo "table"; eo "tbody"] by (destruct v; reflexivity).
+       replace (events v [P [c "tbody"; c "table"]]) with [ec "tbody"; ec "table"] by (destruct v; reflexivity).
+       cbn [app]. apply wrap2. apply wb_concat_map. intros e. apply acc_el_wb. }
   - assert (E : events v (leaf_segs (KText s)) = eo "div" :: te s ++ [ec "div"])
       by (unfold events; cbn [leaf_segs flat_map]; rewrite app_nil_r; destruct v; reflexivity).
     rewrite E. intros st. now rewrite run_eo, run_te, run_ec.
@@ -320,12 +482,6 @@ Proof.
     rewrite E. intros st. now rewrite !run_eo, run_te, !run_ec.
 Qed.
 
-Lemma wrap2 a b es : wb es -> wb (eo a :: eo b :: es ++ [ec b; ec a]).
-Proof.
-  intros H. change (eo a :: eo b :: es ++ [ec b; ec a]) with (eo a :: (eo b :: es ++ [ec b; ec a])).
-  replace (eo b :: es ++ [ec b; ec a]) with ((eo b :: es ++ [ec b]) ++ [ec a]) by (cbn; now rewrite <- app_assoc).
-  apply wb_wrap. apply wb_wrap. exact H.
-Qed.
 
 Lemma row_wb v k : wb (events v (row_segs k)).
 Proof.
@@ -337,8 +493,6 @@ Proof.
   destruct k; try exact G. apply raw_wb.
 Qed.
 
-Lemma events_flat_map {A} v (f : A -> list seg) l : events v (flat_map f l) = flat_map (fun x => events v (f x)) l.
-Proof. induction l as [|x r IH]; cbn [flat_map]; [reflexivity|]. now rewrite events_app, IH. Qed.
 
 Lemma wrap3 a b d es : wb es -> wb (eo a :: eo b :: eo d :: es ++ [ec d; ec b; ec a]).
 Proof.
@@ -372,12 +526,6 @@ Proof.
   - apply wrap3. apply wb_concat_map. intros k. apply row_wb.
 Qed.
 
-Lemma raw_seg_std ts : seg_events Std (raw_seg ts) = seg_events Mso (raw_seg ts). Proof. reflexivity. Qed.
-Lemma raw_run v ts st r : run st (seg_events v (raw_seg ts) ++ r) = run st r.
-Proof.
-  pose proof (raw_wb v ts) as H. unfold events in H. cbn [flat_map] in H. rewrite app_nil_r in H.
-  rewrite run_app, H. reflexivity.
-Qed.
 Lemma items_std : forall l opened, wb (events Std (items_segs opened l)).
 Proof.
   induction l as [|i r IH]; intros opened; [destruct opened; apply balanced_wb; reflexivity|].
@@ -612,10 +760,14 @@ Proof. unfold te, vis. cbn [tok_events]. destruct (all_space s); reflexivity. Qe
 (* what each leaf shows: its author content; the spacer's generated hair space; the divider's
    generated non-breaking space only to Outlook *)
 Definition raw_texts (ts : list tok) : list bytes := texts (flat_map tok_events (raw_toks ts)).   (* the author's own text *)
+Definition ovis (e : option bytes) : list bytes := match e with Some s => vis s | None => [] end.
 Definition leaf_texts (v : view_kind) (k : leaf) : list bytes :=
   match k, v with
   | KText s, _ | KButton s, _ | KButtonLink s, _ => vis s
-  | KRaw ts, _ => raw_texts ts
+  | KRaw ts, _ | KTable ts, _ => raw_texts ts
+  | KSocial _ els, _ => flat_map ovis els
+  | KNavbar ham links, _ => (if ham then [lit "~"; lit "~"] else []) ++ flat_map vis links      (* the generated open / close icons *)
+  | KAccordion els, _ => flat_map (fun e => ovis (fst e) ++ ovis (snd e)) els
   | KSpacer, _ => [lit "~"]
   | KDivider, Mso => [lit "~"]
   | _, _ => []
@@ -635,11 +787,62 @@ Definition block_texts v (b : block) :=
   end.
 Definition body_texts v (b : body) : list bytes := flat_map (block_texts v) b.
 
+(* structural segments show nothing *)
+Definition silent (sg : seg) : Prop := forall v, texts (seg_events v sg) = [].
+Lemma silent_txt v sg l : silent sg -> texts (events v (sg :: l)) = texts (events v l).
+Proof. intros H. rewrite events_cons, texts_app, H. reflexivity. Qed.
+Ltac sil := intros v0; destruct v0; reflexivity.
+
+Lemma texts_cons_eo n l : texts (eo n :: l) = texts l. Proof. reflexivity. Qed.
+Lemma texts_cons_ec n l : texts (ec n :: l) = texts l. Proof. reflexivity. Qed.
+Ltac txs := repeat (first [rewrite texts_cons_eo | rewrite texts_cons_ec | rewrite texts_app | rewrite texts_te | progress (cbn [app])]).
+Lemma sel_h_txt v e : texts (seg_events v (sel_h e)) = ovis e.
+Proof. destruct e as [s|]; [rewrite sel_h_some; txs; unfold ec; cbn [texts flat_map]; now rewrite app_nil_r|destruct v; reflexivity]. Qed.
+Lemma sel_v_txt v e : texts (seg_events v (sel_v e)) = ovis e.
+Proof. destruct e as [s|]; [rewrite sel_v_some; txs; unfold ec; cbn [texts flat_map]; now rewrite app_nil_r|destruct v; reflexivity]. Qed.
+Lemma nav_link_txt v x : texts (events v (nav_link x)) = vis x.
+Proof.
+  unfold nav_link. rewrite silent_txt by sil. rewrite events_cons, texts_app.
+  replace (seg_events v (P [o "a"; tx x; c "a"])) with (eo "a" :: te x ++ [ec "a"]) by (destruct v; reflexivity).
+  replace (texts (events v [M [c "td"]])) with (@nil bytes) by (destruct v; reflexivity).
+  txs. unfold ec; cbn [texts flat_map]. now rewrite !app_nil_r.
+Qed.
+Lemma acc_el_txt v e : texts (events v (acc_el e)) = ovis (fst e) ++ ovis (snd e).
+Proof.
+  destruct e as [t x]. unfold acc_el. cbn [fst snd]. rewrite !silent_txt by sil. rewrite !events_app, !texts_app.
+  replace (texts (events v [P [c "div"; c "label"; c "td"; c "tr"]])) with (@nil bytes) by (destruct v; reflexivity). rewrite app_nil_r. f_equal.
+  - destruct t as [s|]; [|reflexivity]. rewrite events_cons, texts_app.
+    replace (seg_events v (P [o "div"; o "table"; o "tbody"; o "tr"; o "td"; tx s; c "td"])) with (eo "div" :: eo "table" :: eo "tbody" :: eo "tr" :: eo "td" :: te s ++ [ec "td"]) by (destruct v; reflexivity).
+    rewrite !silent_txt by sil. change (texts (events v [])) with (@nil bytes). txs. unfold ec; cbn [texts flat_map ovis]. now rewrite !app_nil_r.
+  - destruct x as [s|]; [|reflexivity]. rewrite events1.
+    replace (seg_events v (P [o "div"; o "table"; o "tbody"; o "tr"; o "td"; tx s; c "td"; c "tr"; c "tbody"; c "table"; c "div"]))
+      with (eo "div" :: eo "table" :: eo "tbody" :: eo "tr" :: eo "td" :: te s ++ [ec "td"; ec "tr"; ec "tbody"; ec "table"; ec "div"]) by (destruct v; reflexivity).
+    txs. unfold ec; cbn [texts flat_map ovis]. now rewrite !app_nil_r.
+Qed.
 Lemma raw_txt v ts l : texts (events v (raw_seg ts :: l)) = raw_texts ts ++ texts (events v l).
 Proof. rewrite events_cons, texts_app. f_equal; destruct v; reflexivity. Qed.
 Lemma leaf_txt v k : texts (events v (leaf_segs k)) = leaf_texts v k.
 Proof.
-  destruct k as [s| | | | |s|s|ts]; try (destruct v; reflexivity).
+  destruct k as [s| | | | |s|s|ts|ts|vert els|ham links|els]; try (destruct v; reflexivity).
+  5: { (* table *) cbn [leaf_segs]. rewrite silent_txt by sil. rewrite raw_txt.
+       replace (texts (events v [P [c "table"]])) with (@nil bytes) by (destruct v; reflexivity). rewrite app_nil_r. destruct v; reflexivity. }
+  5: { (* social *) assert (R : leaf_texts v (KSocial vert els) = flat_map ovis els) by (destruct v; reflexivity). rewrite R. destruct vert.
+       - cbn [leaf_segs]. rewrite silent_txt by sil. rewrite events_app, texts_app, events_map, texts_flat_map.
+         replace (texts (events v [P [c "tbody"; c "table"]])) with (@nil bytes) by (destruct v; reflexivity). rewrite app_nil_r.
+         apply flat_map_ext. intros e. apply sel_v_txt.
+       - destruct els as [|e1 r]; [destruct v; reflexivity|]. cbn [leaf_segs flat_map]. rewrite silent_txt by sil.
+         rewrite events_cons, events_app, !texts_app, sel_h_txt. f_equal.
+         replace (texts (events v [M [c "td"; c "tr"; c "table"]])) with (@nil bytes) by (destruct v; reflexivity). rewrite app_nil_r.
+         rewrite events_flat_map, texts_flat_map. apply flat_map_ext. intros e. rewrite silent_txt by sil. rewrite events1. apply sel_h_txt. }
+  5: { (* navbar *) assert (R : leaf_texts v (KNavbar ham links) = (if ham then [lit "~"; lit "~"] else []) ++ flat_map vis links) by (destruct v; reflexivity). rewrite R.
+       cbn [leaf_segs]. rewrite events_app, texts_app. f_equal; [destruct ham, v; reflexivity|].
+       rewrite !silent_txt by sil. rewrite events_app, texts_app, events_flat_map, texts_flat_map.
+       replace (texts (events v [M [c "tr"; c "table"]; P [c "div"]])) with (@nil bytes) by (destruct v; reflexivity). rewrite app_nil_r.
+       apply flat_map_ext. intros x. apply nav_link_txt. }
+  5: { (* accordion *) assert (R : leaf_texts v (KAccordion els) = flat_map (fun e => ovis (fst e) ++ ovis (snd e)) els) by (destruct v; reflexivity). rewrite R.
+       cbn [leaf_segs]. rewrite silent_txt by sil. rewrite events_app, texts_app, events_flat_map, texts_flat_map.
+       replace (texts (events v [P [c "tbody"; c "table"]])) with (@nil bytes) by (destruct v; reflexivity). rewrite app_nil_r.
+       apply flat_map_ext. intros e. apply acc_el_txt. }
   - assert (E : events v (leaf_segs (KText s)) = eo "div" :: te s ++ [ec "div"])
       by (unfold events; cbn [leaf_segs flat_map]; rewrite app_nil_r; destruct v; reflexivity).
     rewrite E. change (eo "div" :: te s ++ [ec "div"]) with ([eo "div"] ++ te s ++ [ec "div"]).
@@ -671,12 +874,6 @@ Proof.
   - change (eo "div" :: eo "table" :: eo "tbody" :: ?x) with ([eo "div"; eo "table"; eo "tbody"] ++ x).
     rewrite !texts_app, rows_txt. unfold eo, ec; cbn [texts flat_map app]; now rewrite ?app_nil_r.
 Qed.
-(* structural segments show nothing *)
-Definition silent (sg : seg) : Prop := forall v, texts (seg_events v sg) = [].
-Lemma silent_txt v sg l : silent sg -> texts (events v (sg :: l)) = texts (events v l).
-Proof. intros H. rewrite events_cons, texts_app, H. reflexivity. Qed.
-Ltac sil := intros v0; destruct v0; reflexivity.
-
 Lemma items_txt v : forall l opened, texts (events v (items_segs opened l)) = cols_texts v l.
 Proof.
   induction l as [|i r IH]; intros opened; [destruct opened, v; reflexivity|].
@@ -798,6 +995,7 @@ Definition erase_tok (t : tok) : list tok :=
   | TClose n => [TClose n]
   | TText s => if all_space s then [] else [txt]
   | TMsoOpen _ => [TMsoOpen cond]
+  | TNotMsoOpen _ => [TNotMsoOpen ncond]
   | other => [other]
   end.
 (* adjacent pieces of character data are one piece to a reader (and to the lexer) *)
